@@ -251,7 +251,9 @@ static void sched_point() {
         t_spin_n = 0; g_yield_now = false;
         if (g_cfg->policy == 3) TH[me].prio = g_pct_low--;      // under PCT a waiting thread drops below everybody, or it would be re-picked at once
         int best = -1; long bp = LONG_MIN;
-        for (int k = 1; k <= g_nthreads; k++) {
+        // replaying a recorded schedule: the yield went where the record says (the original policy may have been PCT)
+        if (g_cfg->policy == 0) { int to = pick_other(me, false); if (to != me && to >= 0) best = to; }
+        if (best < 0) for (int k = 1; k <= g_nthreads; k++) {
             int j = (me + k) % g_nthreads;
             if (j == me || TH[j].state != ST_RUNNABLE) continue;
             if (g_cfg->policy != 3) { best = j; break; }
@@ -390,14 +392,35 @@ static void *thread_main(void *p) {
     return nullptr;
 }
 
+static int g_joined = 0;
+int finished_thread_owning(const void *p) {
+    uintptr_t a = (uintptr_t)p;
+    for (int i = 0; i < g_joined && i < MAXT - 1; i++) if (TH[i].stack_lo && a >= TH[i].stack_lo && a < TH[i].stack_hi) return i;
+    return -1;
+}
+static std::vector<std::pair<uintptr_t, uintptr_t>> g_main_tls;     // the main thread's thread-local blocks, per module
+static int main_tls_cb(struct dl_phdr_info *info, size_t, void *) {
+    if (!info->dlpi_tls_data) return 0;
+    for (int i = 0; i < info->dlpi_phnum; i++) if (info->dlpi_phdr[i].p_type == PT_TLS) g_main_tls.push_back({ (uintptr_t)info->dlpi_tls_data, (uintptr_t)info->dlpi_tls_data + info->dlpi_phdr[i].p_memsz });
+    return 0;
+}
+static int thread_memory_owner(const void *p) {     // any simulated thread's (or the main thread's) stack / TLS block
+    uintptr_t a = (uintptr_t)p;
+    for (auto &r : g_main_tls) if (a >= r.first && a < r.second) return MAIN_TID;
+    for (int i = 0; i < MAXT; i++) if (TH[i].stack_lo && a >= TH[i].stack_lo && a < TH[i].stack_hi && (i == MAIN_TID || i < g_nthreads)) return i;
+    return -1;
+}
+
 void run_concurrent(const Config &cfg, thread_fn fn, void *arg, Result &out) {
+    g_joined = 0;
     g_cfg = &cfg; g_res = &out; g_fn = fn; g_arg = arg; g_nthreads = cfg.nthreads;
     out.interleaving_hash = SIM_FNV_INIT;
     g_step = 0; g_replay_i = 0; g_quantum_left = cfg.quantum; g_stop_all = false;
     g_srng = sim_derive(cfg.sched_seed, 0x5c4ed);
     g_gen++; g_cells_used = 0;
     if (g_gen == 0) { memset(g_cells, 0, sizeof(Cell) * NCELL); g_gen = 1; }
-    g_sync.clear(); g_blocks.clear();
+    if (!cfg.keep_sync_state) g_sync.clear();
+    g_blocks.clear();
     memset(VC, 0, sizeof VC);
     VC[MAIN_TID][MAIN_TID] = 1;
     g_pct_points.clear(); g_pct_low = -1;
@@ -432,6 +455,7 @@ void run_concurrent(const Config &cfg, thread_fn fn, void *arg, Result &out) {
         if (g_step == before) { fprintf(stderr, "WATCHDOG: baton holder %d stalled at step %llu\n", g_cur, (unsigned long long)g_step); _Exit(4); }
     }
     for (int i = 0; i < cfg.nthreads; i++) { pthread_join(TH[i].th, nullptr); vc_join(VC[MAIN_TID], VC[i]); }
+    g_joined = cfg.nthreads;
     g_mode = 0;
     out.steps = g_step;
     for (int i = 0; i < cfg.nthreads; i++) if (TH[i].aborted && out.abort_what.empty()) out.abort_what = "thread " + std::to_string(i) + " stopped inside the library";
@@ -497,6 +521,7 @@ void init() {
     }
     std::sort(g_ro.begin(), g_ro.end(), [](const Range &a, const Range &b) { return a.lo < b.lo; });
     if (__start_eavdata) g_pristine.assign(__start_eavdata, __stop_eavdata);
+    dl_iterate_phdr(main_tls_cb, nullptr);      // init() runs on the main thread
 }
 
 const char *set_process_locale(const char *name) { return __real_setlocale(LC_ALL, name); }
@@ -594,7 +619,16 @@ static bool alloc_fails() {
 void *__wrap_malloc(size_t n) { on_plain_point(PC); if (alloc_fails()) { errno = ENOMEM; return nullptr; } void *p = __real_malloc(n); block_add(p, n); return p; }
 void *__wrap_calloc(size_t a, size_t b) { on_plain_point(PC); if (alloc_fails()) { errno = ENOMEM; return nullptr; } void *p = __real_calloc(a, b); block_add(p, a * b); return p; }
 void *__wrap_realloc(void *o, size_t n) { on_plain_point(PC); block_del(o); void *p = __real_realloc(o, n); block_add(p, n); return p; }
-void __wrap_free(void *p) { on_plain_point(PC); block_del(p); __real_free(p); }
+// a pointer into a thread's stack or thread-local block handed to free(): glibc would abort the process; report it instead
+static bool bad_free(void *p) {
+    if (!p || !active() || g_mode != 2 || !g_res) return false;
+    int o = thread_memory_owner(p);
+    if (o < 0) return false;
+    RtGuard rg_;
+    if (g_res->bad_free.empty()) g_res->bad_free = "thread " + std::to_string(t_tid) + " passes to free() a pointer into the stack / thread-local storage of " + (o == MAIN_TID ? std::string("the main thread") : "thread " + std::to_string(o));
+    return true;
+}
+void __wrap_free(void *p) { on_plain_point(PC); if (bad_free(p)) return; block_del(p); __real_free(p); }
 char *__wrap_strdup(const char *s) { size_t n = __real_strlen(s) + 1; on_range(s, n, false, PC); char *p = __real_strdup(s); block_add(p, n); return p; }
 char *__wrap_strndup(const char *s, size_t n) { char *p = __real_strndup(s, n); if (p) { size_t l = __real_strlen(p) + 1; on_range(s, l - 1 < n ? l : n, false, PC); block_add(p, l); } return p; }
 
